@@ -1598,6 +1598,8 @@ func (c *connection) handleRecvQueue(q lib.QueueMPSC) {
 			idFrom := binary.BigEndian.Uint64(buf.B[8:16])
 			priority := gen.MessagePriority(buf.B[16] & 3)
 			important := (buf.B[16] & 128) > 0
+			// the reference must be taken before the buffer is released below
+			importantRef := binary.BigEndian.Uint64(buf.B[17:25])
 			idTO := binary.BigEndian.Uint64(buf.B[25:33])
 
 			msg, tail, err := edf.Decode(buf.B[33:], c.decodeOptions)
@@ -1637,7 +1639,7 @@ func (c *connection) handleRecvQueue(q lib.QueueMPSC) {
 				continue
 			}
 
-			opts.Ref.ID[0] = binary.BigEndian.Uint64(buf.B[17:25])
+			opts.Ref.ID[0] = importantRef
 			c.SendResponseError(to, from, opts, err)
 
 		case protoMessageName, protoMessageNameCache: // name, chached name
@@ -1685,6 +1687,8 @@ func (c *connection) handleRecvQueue(q lib.QueueMPSC) {
 			idFrom := binary.BigEndian.Uint64(buf.B[8:16])
 			priority := gen.MessagePriority(buf.B[16] & 3)
 			important := (buf.B[16] & 128) > 0
+			// the reference must be taken before the buffer is released below
+			importantRef := binary.BigEndian.Uint64(buf.B[17:25])
 
 			msg, tail, err := edf.Decode(data, c.decodeOptions)
 			if releaseBuffer {
@@ -1728,7 +1732,7 @@ func (c *connection) handleRecvQueue(q lib.QueueMPSC) {
 				continue
 			}
 
-			opts.Ref.ID[0] = binary.BigEndian.Uint64(buf.B[17:25])
+			opts.Ref.ID[0] = importantRef
 			c.SendResponseError(gen.PID{}, from, opts, err)
 
 		case protoMessageAlias:
@@ -1740,6 +1744,8 @@ func (c *connection) handleRecvQueue(q lib.QueueMPSC) {
 			idFrom := binary.BigEndian.Uint64(buf.B[8:16])
 			priority := gen.MessagePriority(buf.B[16] & 3)
 			important := (buf.B[16] & 128) > 0
+			// the reference must be taken before the buffer is released below
+			importantRef := binary.BigEndian.Uint64(buf.B[17:25])
 			idTo := [3]uint64{
 				binary.BigEndian.Uint64(buf.B[25:33]),
 				binary.BigEndian.Uint64(buf.B[33:41]),
@@ -1783,7 +1789,7 @@ func (c *connection) handleRecvQueue(q lib.QueueMPSC) {
 				continue
 			}
 
-			opts.Ref.ID[0] = binary.BigEndian.Uint64(buf.B[17:25])
+			opts.Ref.ID[0] = importantRef
 			c.SendResponseError(gen.PID{}, from, opts, err)
 
 		case protoRequestPID:
